@@ -109,6 +109,7 @@ func runC14(r *Report) {
 	c09R3(r.sub("R5"))
 	c14R6(r)
 	c14R7(r)
+	pieceSizeProducts64(r, "R8")
 }
 
 func c14R1(r *Report) {
